@@ -325,3 +325,62 @@ Definition exec_x (envm : envlist) (stdout stderr : xwriter) (cmd : string) (arg
      k_buf_out := accepted stdout (child_out r);
      k_buf_err := accepted stderr (child_err r) |}.
 End World.
+
+(* ---------------------------------------------------------------- overlapping calls
+   Two sh calls in flight at the same time (targets run in parallel by mg.Deps).  The only state
+   they share is the process environment.  The steps of a call that touch it: the expansion
+   (os.Getenv through the closure of Exec), run (os.Environ()), the end of the call.  In the code
+   that exists no step WRITES it: the map entries go into c.Env only. *)
+Record pcall := { pc_envm : envlist; pc_cmd : string; pc_args : list string }.
+Record pobs := { po_argv : option (list string);      (* what the call handed to exec.Command *)
+                 po_envp : option (list string) }.    (* the environment its child was started with *)
+Inductive pstep := PExpand | PStart | PEnd.
+
+Definition step_call (pe : envlist) (c : pcall) (o : pobs) (s : pstep) : envlist * pobs :=
+  match s with
+  | PExpand => (pe, {| po_argv := Some (map (expand (exec_mapping pe (pc_envm c))) (pc_cmd c :: pc_args c));
+                       po_envp := po_envp o |})
+  | PStart => (pe, {| po_argv := po_argv o;
+                      po_envp := Some (dedup_env (environ pe ++ map entry_str (pc_envm c))) |})
+  | PEnd => (pe, o)
+  end.
+
+(* a schedule: which of the two calls (true = the first) takes its next step *)
+Fixpoint par_calls (sched : list (bool * pstep)) (a b : pcall) (pe : envlist) (oa ob : pobs)
+  : envlist * (pobs * pobs) :=
+  match sched with
+  | [] => (pe, (oa, ob))
+  | (true, s) :: r => let '(pe', oa') := step_call pe a oa s in par_calls r a b pe' oa' ob
+  | (false, s) :: r => let '(pe', ob') := step_call pe b ob s in par_calls r a b pe' oa ob'
+  end.
+
+Definition pobs0 : pobs := {| po_argv := None; po_envp := None |}.
+
+(* For contrast, NOT the code that exists: the design of a t.Setenv-style helper.  The call writes
+   its map into the process environment, expands and starts from the process environment alone,
+   and puts the previous values back when it ends. *)
+Definition env_set (pe : envlist) (k v : string) : envlist :=
+  (k, v) :: filter (fun kv => negb (String.eqb (fst kv) k)) pe.
+Definition env_unset (pe : envlist) (k : string) : envlist :=
+  filter (fun kv => negb (String.eqb (fst kv) k)) pe.
+Record pobs_s := { ps_obs : pobs; ps_prev : list (string * option string) }.
+Definition step_call_setenv (pe : envlist) (c : pcall) (o : pobs_s) (s : pstep) : envlist * pobs_s :=
+  match s with
+  | PExpand =>
+      let prev := map (fun kv => (fst kv, map_get pe (fst kv))) (pc_envm c) in
+      let pe' := fold_left (fun e kv => env_set e (fst kv) (snd kv)) (pc_envm c) pe in
+      (pe', {| ps_obs := {| po_argv := Some (map (expand (getenv pe')) (pc_cmd c :: pc_args c));
+                            po_envp := po_envp (ps_obs o) |};
+               ps_prev := prev |})
+  | PStart => (pe, {| ps_obs := {| po_argv := po_argv (ps_obs o); po_envp := Some (dedup_env (environ pe)) |};
+                      ps_prev := ps_prev o |})
+  | PEnd => (fold_left (fun e kp => match snd kp with Some v => env_set e (fst kp) v | None => env_unset e (fst kp) end)
+                       (ps_prev o) pe, o)
+  end.
+Fixpoint par_calls_setenv (sched : list (bool * pstep)) (a b : pcall) (pe : envlist) (oa ob : pobs_s)
+  : envlist * (pobs_s * pobs_s) :=
+  match sched with
+  | [] => (pe, (oa, ob))
+  | (true, s) :: r => let '(pe', oa') := step_call_setenv pe a oa s in par_calls_setenv r a b pe' oa' ob
+  | (false, s) :: r => let '(pe', ob') := step_call_setenv pe b ob s in par_calls_setenv r a b pe' oa ob'
+  end.
